@@ -147,6 +147,16 @@ class MsgProp:
                         # a repeated or stray fragment: rejected, and must leave nothing behind
                         j = rng.choice([i + 1, i + 3]) if i > 0 else i + 3
                         ops.append(L(ais.sentence(pc, fill=0, nf=max(n, j), fn=j, mid=mid), 0, 1))
+                    if i < n - 1 and rng.random() < 0.3:
+                        # the number the group expects next under ANOTHER id (absent, 0 and 255 are three different ids),
+                        # or the right numbering spelled as value + 256: rejected, nothing appended
+                        if rng.random() < 0.6:
+                            oid = rng.choice([x for x in (None, 0, 255, 1, 254, (mid or 0) + 1) if x != mid])
+                            ops.append(L(ais.sentence(gen.random_alphabet(rng, 6), fill=0, nf=n, fn=i + 2, mid=oid), 0, 1))
+                        else:
+                            kw2 = rng.choice([dict(fn_txt=str(i + 2 + 256).encode()), dict(nf_txt=str(n + 256).encode()),
+                                              dict(mid_txt=str((mid or 0) + 256).encode())])
+                            ops.append(L(ais.sentence(gen.random_alphabet(rng, 6), fill=0, nf=n, fn=i + 2, mid=mid, **kw2), 0, 1))
                     if i < n - 1 and rng.random() < 0.4:
                         # an unfragmented sentence from another station (accepted; decodable, undecodable, or not
                         # decoded at all) between the fragments: it must not touch the open group
@@ -331,6 +341,18 @@ def coord_cases(rng, tier):
                 f = gen.base_fields(t, rng, layout)
                 f[name] = v
                 ops.append(m_op(gen.full_payload(t, f) + gen.tail_for(t, rng)))
+            # the 'not available' code itself, its neighbours and 0 in every background (all other fields not
+            # available, all zero, all ones, notable moments): absence is a matter of this field's code alone
+            codes = [c for c in gen.NOT_AVAILABLE.get(name, []) if c < (1 << w)]
+            if name in ("lon", "lat"):
+                codes = [{28: 108600000, 27: 54600000, 18: 108600, 17: 54600}[w]]
+            if name in ("year", "month", "day", "eta_month", "eta_day"):
+                codes = [0]
+            for c in codes:
+                for v in (c, (c + 1) % (1 << w), (c - 1) % (1 << w), 0, (1 << w) - 1):
+                    for f in gen.backgrounds(t, rng, layout):
+                        f[name] = v
+                        ops.append(m_op(gen.full_payload(t, f) + gen.tail_for(t, rng)))
         yield (f"coord:{t}", ops)
     # interrogation slot offsets
     ops = []
@@ -622,6 +644,11 @@ class C12(MsgProp):
                     f = gen.base_fields(t, rng, layout)
                     f[name] = v
                     ops.append(m_op(gen.full_payload(t, f) + gen.tail_for(t, rng)))
+                    if (1 << w) <= 32:
+                        # ... nor on what else the message says (nothing available, all zero, all ones, notable moments)
+                        for f in gen.backgrounds(t, rng, layout):
+                            f[name] = v
+                            ops.append(m_op(gen.full_payload(t, f) + gen.tail_for(t, rng)))
                     # the code's meaning must not depend on who transmits it: every family of station identity
                     fams = range(gen.MMSI_FAMILIES) if (1 << w) <= 32 else [rng.randrange(gen.MMSI_FAMILIES)]
                     for fam in fams:
@@ -698,8 +725,17 @@ class C13(MsgProp):
             ops = []
             lens = list(range(1, 30)) + [40, 60, 100, 155, 156, 157] if tier == "quick" else list(range(1, 160))
             for k in lens:
-                for chars in ([[rng.getrandbits(6) for _ in range(k)] for _ in range(3)] +
-                              [[0] * k, [32] * k, [32] + [5] * (k - 1) if k > 1 else [32]]):
+                shaped = [[0] * k, [32] * k, [32] + [5] * (k - 1) if k > 1 else [32]]
+                # runs of blanks / '@' of every length at the start, in the middle and at the end (a decoder working
+                # in chunks of 20 characters, or trimming per chunk, shows at 20, 21, 40, 41 ...)
+                for run in sorted({1, 2, 19, 20, 21, 22, 39, 40, 41, k - 1, k - 2}):
+                    if 0 < run < k:
+                        for padc in (32, 0):
+                            shaped.append([padc] * run + [rng.randrange(1, 27) for _ in range(k - run)])
+                            shaped.append([rng.randrange(1, 27) for _ in range(k - run)] + [padc] * run)
+                            if k - run >= 2:
+                                shaped.append([13] + [padc] * run + [rng.randrange(1, 27) for _ in range(k - run - 1)])
+                for chars in ([[rng.getrandbits(6) for _ in range(k)] for _ in range(3)] + shaped):
                     f = gen.base_fields(t, rng, ais.LAYOUTS[t])
                     bits = ais.pack(f, ais.LAYOUTS[t], hdr)
                     for c in chars:
